@@ -3,7 +3,7 @@
    behaviour of IdleAccept (for *some* choice of the two design switches at each step -- the trace decides which),
    with the C33 clauses evaluated in every state reached.
 
-   Trace file (IOEnv.TRACE_FILE): JSON array of [ev |-> <<event, ...>>]; one event per controller operation:
+   Trace file (IOEnv.TRACE_FILE): JSON array of [mp |-> max_connections (0 = None), ev |-> <<event, ...>>]; one event per controller operation:
      a     "Arrive" | "Loop" | "H" | "TFire" | "TRun"        which thread took a step (or environment)
      c, t  connection id / timer id (0 when not applicable)
      acc   what a pending accept() did in this step: "" | "conn" | "timeout"
@@ -19,10 +19,10 @@ tvars == <<vars, tid, l>>
 
 Kinds == {"grace", "idle", "short", "long"}
 LoopLabel(p) == CASE p = "start" -> "start" [] p = "accept" -> "accept" [] p = "exited" -> "EXIT" [] OTHER -> "acq"
-HLabel(p) == CASE p = "start" -> "start" [] p = "serving" -> "serve" [] p = "fin" -> "acq" [] p = "done" -> "EXIT"
+HLabel(p) == CASE p = "start" -> "start" [] p = "semwait" -> "sem" [] p = "serving" -> "serve" [] p = "fin" -> "acq" [] p = "done" -> "EXIT"
                [] OTHER -> "?"
 
-TraceInit == /\ tid \in 1..Len(Traces) /\ l = 1 /\ Init
+TraceInit == /\ tid \in 1..Len(Traces) /\ l = 1 /\ Init /\ maxPar = Traces[tid].mp
 Ev == Traces[tid].ev[l]
 Consume == l <= Len(Traces[tid].ev) /\ l' = l + 1 /\ UNCHANGED tid
 
@@ -41,7 +41,7 @@ LoopStep == /\ Ev.a = "Loop"
                \/ Ev.acc = "conn" /\ LAccept
                \/ Ev.acc = "timeout" /\ LTimeout
 HStep == /\ Ev.a = "H" /\ Ev.c \in Conns
-         /\ \/ HStart(Ev.c) \/ HServeEnd(Ev.c) \/ (\E k \in Kinds : HFin(Ev.c, k))
+         /\ \/ HStart(Ev.c) \/ HAcquire(Ev.c) \/ HServeEnd(Ev.c) \/ (\E k \in Kinds : HFin(Ev.c, k))
          /\ HLabel(hpc'[Ev.c]) = Ev.hl
 TraceNext == /\ Consume
              /\ \/ Ev.a = "Arrive" /\ Arrive
